@@ -673,8 +673,21 @@ class Interp:
                 ns = None
             if isinstance(ns, SNamespace) and ns.dropped:
                 self.dropped.append(f'{ns.name}.{f.attr}(...) line {node.lineno}')
+                # the arguments of a dropped call are not evaluated, except for one effect that outlives the call: a generator bound to a name and unrolled
+                # there (list(gen), sorted(gen), ', '.join(gen) ...) is exhausted afterwards
+                if not self.in_spec:
+                    for sub in [n for a in list(node.args) + [k.value for k in node.keywords] for n in ast.walk(a)]:
+                        if isinstance(sub, ast.Call) and ((isinstance(sub.func, ast.Name) and sub.func.id in ('list', 'tuple', 'sorted', 'set', 'frozenset', 'sum', 'any', 'all',
+                                                                                                               'max', 'min', 'dict', 'len'))
+                                                          or (isinstance(sub.func, ast.Attribute) and sub.func.attr in ('join', 'extend'))):
+                            for a2 in sub.args:
+                                if isinstance(a2, ast.Name) and scope.has(a2.id) and isinstance(scope.lookup(a2.id), GenExp):
+                                    scope.lookup(a2.id).consumed = True
                 if f.attr == 'isEnabledFor':
-                    return False
+                    # the level of a logger is not part of the program state under contract: both answers are explored (False inside specifications)
+                    if self.path.nofork or self.in_spec:
+                        return False
+                    return self.path.choose(2, 'logger-level') == 1
                 return None
         if (isinstance(f, ast.Attribute) and isinstance(f.value, ast.Call) and isinstance(f.value.func, ast.Name) and f.value.func.id == 'super'
                 and not f.value.args and not self.in_spec):
@@ -1183,6 +1196,15 @@ class Interp:
         r = self.world.lib.identical(self, a, b)
         if r is not NotImplemented:
             return r
+        # `is` between integers: never true for different values; for equal values CPython answers True for the cached small integers (-5 .. 256) and anything
+        # otherwise (two computations of the same value are in general two objects): an unconstrained boolean stands for that answer
+        ai = a if isinstance(a, SV) else (lift(a) if isinstance(a, int) and not isinstance(a, bool) else None)
+        bi = b if isinstance(b, SV) else (lift(b) if isinstance(b, int) and not isinstance(b, bool) else None)
+        if isinstance(ai, SV) and isinstance(bi, SV) and ai.typ.kind == 'Int' and bi.typ.kind == 'Int' and (isinstance(a, SV) or isinstance(b, SV)):
+            whatever = z3.Bool(self.path.name('same_int_object'))
+            small = z3.And(ai.t >= -5, ai.t <= 256)
+            self.world.lib.use('`is` between integers: equal values are the same object for -5..256, unspecified otherwise')
+            return SV(BOOL, z3.And(ai.t == bi.t, z3.Or(small, whatever)))
         raise Undecided(f'identity of {a!r} and {b!r}')
 
     def equal(self, a, b):
